@@ -42,7 +42,8 @@ StepN(M, st) ==
       vSent == UNION {
          (IF dwrs(c) > 1 THEN {"more_than_one_dwr"} ELSE {}) \cup
          (IF dwrs(c) >= 1 /\ M0.wait[c] /\ ~(c = c0 /\ fedDwa) THEN {"dwr_while_awaiting_dwa"} ELSE {}) \cup
-         (IF dwrs(c) >= 1 /\ ~M0.wait[c] /\ now - M0.lastRx[c] <= idle(c) /\ now - M0.prevRx[c] <= idle(c) THEN {"dwr_before_idle_timeout"} ELSE {}) \cup
+         \* (traffic in the very second of the DWR is unordered with it: then the traffic before that second counts)
+         (IF dwrs(c) >= 1 /\ ~M0.wait[c] /\ now - (IF M0.lastRx[c] < now THEN M0.lastRx[c] ELSE M0.prevRx[c]) <= idle(c) THEN {"dwr_before_idle_timeout"} ELSE {}) \cup
          (IF dwrs(c) >= 1 /\ ~M0.rdy[c] THEN {"dwr_on_connection_not_ready"} ELSE {})
          : c \in CIds}
       \* ---- DWRs that should have been sent
@@ -58,7 +59,9 @@ StepN(M, st) ==
                      CstOf(st.snap, x) \in READY /\ now >= M0.dwrAt[x] + dwaT(x) + MCfg.node.wakeup + 1}}
       vEarly == {"dwa_timeout_too_early" : c \in {x \in CIds : inSvc(x) /\ M0.wait[x] /\ closed(x) /\ M0.peer[x] \in MPeers /\
                      st.snap.peers[M0.peer[x]].reason = R_DWATO /\ now - M0.dwrAt[x] <= dwaT(x)}}
-      vReason == {"dwa_timeout_wrong_reason" : c \in {x \in CIds : inSvc(x) /\ M0.wait[x] /\ closed(x) /\ st.act.a = "tick" /\
+      \* (the disconnect reason is a per-peer attribute: judged only when the peer had no other connection at the time)
+      others(x) == {y \in CIds \ {x} : M0.dir[y] # "" /\ ~M0.gone[y] /\ (M0.peer[y] = M0.peer[x] \/ M0.cand[y] = M0.peer[x])}
+      vReason == {"dwa_timeout_wrong_reason" : c \in {x \in CIds : inSvc(x) /\ M0.wait[x] /\ closed(x) /\ st.act.a = "tick" /\ others(x) = {} /\
                      M0.peer[x] \in MPeers /\ st.snap.peers[M0.peer[x]].conn = 0 /\ st.snap.peers[M0.peer[x]].reason \notin {R_DWATO, 32} /\
                      now - M0.dwrAt[x] > dwaT(x)}}
       \* ---- received DWR answered 2001 in either ready sub-state
